@@ -476,6 +476,9 @@ type PayLine struct {
 type PayCase struct {
 	Regime string    `json:"regime"`
 	Lines  []PayLine `json:"lines"`
+	// Extra exchange rates between other currencies ("USD>GBP"): chains, cycles
+	// and dead ends that lead nowhere near the payment's currency
+	Extra []string `json:"extra_rates,omitempty"`
 }
 
 func (c PayCase) JSON() []byte {
@@ -519,6 +522,12 @@ func (c PayCase) JSON() []byte {
 		"$schema": "https://gobl.org/draft-0/bill/payment", "$regime": c.Regime, "type": "receipt", "code": "PAY-1",
 		"issue_date": "2024-06-13", "currency": "EUR", "supplier": map[string]any{"name": "Supplier"}, "lines": lines,
 	}
+	for _, x := range c.Extra {
+		from, to, ok := strings.Cut(x, ">")
+		if ok {
+			rates = append(rates, map[string]any{"from": from, "to": to, "amount": "1.1"})
+		}
+	}
 	if len(rates) > 0 {
 		m["exchange_rates"] = rates
 	}
@@ -558,6 +567,24 @@ func genPayCase(t *rapid.T) PayCase {
 			}
 		}
 		c.Lines = append(c.Lines, l)
+	}
+	if rapid.IntRange(0, 2).Draw(t, "extra") == 0 {
+		curs := []string{"USD", "GBP", "JPY", "KWD", "MXN", "USDT"}
+		for i, n := 0, rapid.IntRange(1, 5).Draw(t, "nextra"); i < n; i++ {
+			a := rapid.SampledFrom(curs).Draw(t, "xfrom")
+			b := rapid.SampledFrom(curs).Draw(t, "xto")
+			c.Extra = append(c.Extra, a+">"+b)
+		}
+		if rapid.Bool().Draw(t, "cycle") {
+			c.Extra = append(c.Extra, "USD>GBP", "GBP>JPY", "JPY>USD")
+		}
+		// a line in one of these currencies without a rate of its own
+		if len(c.Lines) > 0 && rapid.Bool().Draw(t, "cycleline") {
+			c.Lines[0].Currency, c.Lines[0].RateAmt = "USD", ""
+			if c.Lines[0].Debit == "" {
+				c.Lines[0].Debit = "10.00"
+			}
+		}
 	}
 	return c
 }
@@ -760,7 +787,7 @@ var fuzzParse, fuzzBulk func(t *testing.T, c BytesCase)
 func init() {
 	vh.OnExit(goblexec.Stop)
 	vh.Describe(
-		"(1) every single edit (quick tier: of a tenth of the nodes, rotating with the seed) (delete; set to null / [null] / \"\" / {}; insert a null element; duplicate the first element) of every node of every example document, of its calculated envelope and (header and signatures) of its signed envelope, exhaustively; (2) rapid: 1-3 random edits drawn from a hostile value list (nulls, retyped values, unknown currency / country / regime / addon / schema ids, empty and huge numbers, empty and null signatures, deep nesting, duplicated elements); (2b) schema-driven: for every published schema type a minimal document (and the first example of that type) in which each declared path of up to 3 member names (thorough: 5) ends in null / {} / [] / \"\" / 0 / [null] / a malformed template-and-format text, and every member a schema declares and an example (source and calculated envelope) does not carry, added in place with values of the right and of the wrong type (quick tier: a rotating twentieth); (3) fixed hostile texts, truncated examples and legacy variants of the examples (older member names, zones, rate and extension keys migrated on load); (3b) generated documents (internal/docgen) with legal but degenerate numbers: -100% / 0% / huge percentages also as tax rates, with and without included taxes, and generated payments of 1-4 lines (a third in a currency of their own - defined, undefined or malformed - mostly with a declared exchange rate of a sensible, zero, negative, tiny or huge amount) whose documents carry tax summaries sharing categories and percentages but differing in surcharges and extensions; (4) thorough: native fuzzing of the parser pipeline (seeded with the examples, hostile texts and one all-members document per published type) and of the bulk request stream. Every input goes through Parse, Envelop, Calculate, Validate, Digest, Verify, Sign, Correct (7 option variants), Replicate, Invert, RemoveIncludedTaxes, Marshal and through bulk build / validate / correct / replicate / verify / sign requests. `identity_shapes`: for every tax country (alternative codes, a country without regime, an unknown one) about 150 shapes of identity code - digits of 1 to 40 characters with and without leading zeros, zeros and nines only, padded, with the country prefix once and twice, letters in front and behind, separators, other scripts, valid codes of other countries - as a tax/identity document, inside an org/party and as the customer of a Spanish invoice: hand-written padding / prefix / suffix / check-digit code of every regime is reached by any document through the tax_id of a party of that country. `type_terms`: build and sign requests that name their document type by a term - empty, acronyms, trailing and leading capitals, dots and slashes in odd places, other scripts, control characters, URLs, very long, and random strings over a small alphabet - through cli.FindType, cli.Build and the bulk stream: an unknown type is refused, never a crash. `bulk_storm`: for every published object type a bulk stream of 400 (thorough: 4000) distinct all-members documents (every free string and every pattern member unique) as validate and as build requests, handled concurrently by the process - what the library builds lazily on first sight is then built from several requests at once. Every seed, legacy variant, all-members document and example is also posted to /build and /verify of a running `gobl serve` (never a 5xx, always a JSON object, documented keys, a keyed error for a document that was read). Oracle: no panic (signature = first gobl frame), no death of the process (a Go fatal error: the driver names the case from the shard's breadcrumb), no hang (20 s watchdog), every envelope-API error is a *gobl.Error with a documented key that serialises to JSON, every bulk error about a document carries a documented key (payload-level protocol errors aside), every bulk request is answered and the stream ends with one final marker. Non-trivial: the input parses (reaches logic beyond unmarshalling).",
+		"(1) every single edit (quick tier: of a tenth of the nodes, rotating with the seed) (delete; set to null / [null] / \"\" / {}; insert a null element; duplicate the first element) of every node of every example document, of its calculated envelope and (header and signatures) of its signed envelope, exhaustively; (2) rapid: 1-3 random edits drawn from a hostile value list (nulls, retyped values, unknown currency / country / regime / addon / schema ids, empty and huge numbers, empty and null signatures, deep nesting, duplicated elements); (2b) schema-driven: for every published schema type a minimal document (and the first example of that type) in which each declared path of up to 3 member names (thorough: 5) ends in null / {} / [] / \"\" / 0 / [null] / a malformed template-and-format text, and every member a schema declares and an example (source and calculated envelope) does not carry, added in place with values of the right and of the wrong type (quick tier: a rotating twentieth); (3) fixed hostile texts, truncated examples and legacy variants of the examples (older member names, zones, rate and extension keys migrated on load); (3b) generated documents (internal/docgen) with legal but degenerate numbers: -100% / 0% / huge percentages also as tax rates, with and without included taxes, and generated payments of 1-4 lines (a third in a currency of their own - defined, undefined or malformed - mostly with a declared exchange rate of a sensible, zero, negative, tiny or huge amount; a third of the payments declare further rates between other currencies - chains, cycles, dead ends) whose documents carry tax summaries sharing categories and percentages but differing in surcharges and extensions; (4) thorough: native fuzzing of the parser pipeline (seeded with the examples, hostile texts and one all-members document per published type) and of the bulk request stream. Every input goes through Parse, Envelop, Calculate, Validate, Digest, Verify, Sign, Correct (7 option variants), Replicate, Invert, RemoveIncludedTaxes, Marshal and through bulk build / validate / correct / replicate / verify / sign requests. `identity_shapes`: for every tax country (alternative codes, a country without regime, an unknown one) about 150 shapes of identity code - digits of 1 to 40 characters with and without leading zeros, zeros and nines only, padded, with the country prefix once and twice, letters in front and behind, separators, other scripts, valid codes of other countries - as a tax/identity document, inside an org/party and as the customer of a Spanish invoice: hand-written padding / prefix / suffix / check-digit code of every regime is reached by any document through the tax_id of a party of that country. `type_terms`: build and sign requests that name their document type by a term - empty, acronyms, trailing and leading capitals, dots and slashes in odd places, other scripts, control characters, URLs, very long, and random strings over a small alphabet - through cli.FindType, cli.Build and the bulk stream: an unknown type is refused, never a crash. `bulk_storm`: for every published object type a bulk stream of 400 (thorough: 4000) distinct all-members documents (every free string and every pattern member unique) as validate and as build requests, handled concurrently by the process - what the library builds lazily on first sight is then built from several requests at once. Every seed, legacy variant, all-members document and example is also posted to /build and /verify of a running `gobl serve` (never a 5xx, always a JSON object, documented keys, a keyed error for a document that was read). Oracle: no panic (signature = first gobl frame), no death of the process (a Go fatal error: the driver names the case from the shard's breadcrumb), no hang (20 s watchdog), every envelope-API error is a *gobl.Error with a documented key that serialises to JSON, every bulk error about a document carries a documented key (payload-level protocol errors aside), every bulk request is answered and the stream ends with one final marker. Non-trivial: the input parses (reaches logic beyond unmarshalling).",
 		"a watchdog expiry is reported as a hang only through the replay file (replay must reproduce it)",
 	)
 	vh.Enum("seeds", enumSeeds, judgeBytes)
